@@ -95,10 +95,10 @@ impl Run {
             level: level.into(),
         }
     }
-    /// The deep plan. The checks of C09 C11 C13 C14 C15 cost seconds even then, so their quick
+    /// The deep plan. The checks of C09 C11 C13 C15 cost seconds even then, so their quick
     /// tier runs it as well.
     pub fn thorough(&self) -> bool {
-        self.tier == "thorough" || ["C09", "C11", "C13", "C14", "C15"].contains(&self.prop.as_str())
+        self.tier == "thorough" || ["C09", "C11", "C13", "C15"].contains(&self.prop.as_str())
     }
     pub fn add(&self, v: Violation) {
         self.violations.lock().unwrap().push(v);
